@@ -2,3 +2,5 @@
 import GstVerif.Basic.Proto
 import GstVerif.Grid.Model
 import GstVerif.Grid.Driver
+import GstVerif.Poly.Model
+import GstVerif.Poly.Driver
